@@ -1,0 +1,24 @@
+//go:build verif
+// +build verif
+
+package hpack
+
+// Read-only views of the dynamic tables for the out-of-tree verification harness (build tag verif).
+
+// VerifTable is a copy of a dynamicTable: entries oldest first.
+type VerifTable struct {
+	Ents    []HeaderField
+	Size    uint32
+	MaxSize uint32
+	Allowed uint32
+}
+
+func verifCopy(dt *dynamicTable) VerifTable {
+	return VerifTable{Ents: append([]HeaderField(nil), dt.ents...), Size: dt.size, MaxSize: dt.maxSize, Allowed: dt.allowedMaxSize}
+}
+
+// VerifEncoderTable returns the encoder's dynamic table.
+func VerifEncoderTable(e *Encoder) VerifTable { return verifCopy(&e.dynTab) }
+
+// VerifDecoderTable returns the decoder's dynamic table.
+func VerifDecoderTable(d *Decoder) VerifTable { return verifCopy(&d.dynTab) }
